@@ -97,14 +97,17 @@ pub fn pick<'a, T>(r: &mut StdRng, xs: &'a [T]) -> &'a T {
 
 /// Run a closure inside a rayon pool of `n` threads (the library's parallel loops then see that pool).
 pub fn in_pool<T: Send, F: FnOnce() -> T + Send>(n: usize, f: F) -> T {
+    // (0: on the calling thread itself, i.e. in the global pool, as consecutive calls of an application would be)
+    if n == 0 { return f(); }
     rayon::ThreadPoolBuilder::new().num_threads(n).build().expect("pool").install(f)
 }
 
 /// Pool sizes for case `k`: `m` sizes (m >= 2) that run through every size from 1 to 16 as k advances (a result
-/// must not depend on how many workers share the work), the last one always being the machine's 16.
+/// must not depend on how many workers share the work), the last one being the machine's 16 or, for every third case, no private pool at all (size 0).
 pub fn pools_for(k: usize, m: usize) -> Vec<usize> {
     let mut v: Vec<usize> = (0..m - 1).map(|i| 1 + (k + 5 * i) % 15).collect();
     v.dedup();
-    v.push(16);
+    // every third case makes its last call outside any private pool
+    v.push(if k % 3 == 1 { 0 } else { 16 });
     v
 }
